@@ -8,8 +8,9 @@
 //         -> ARGS .. | CAST recv | ERR(class)          (mode: conv = engine.boxed_cast<T>, noconv = chaiscript::boxed_cast<T>(bv),
 //                                                        eval = engine.eval<T>(script text of the literal))
 //   arg = kind.type.payload  (kinds: var cvar ref cref ptr cptr sp csp nullsp ret uniq upref upcref upsp lit fn vec cvec undef)
-//   route reseat / mode rconv: the (shared_ptr-held) argument is first passed to a C++ function taking std::shared_ptr<T>& that re-seats
-//         it to a new object; the case is then about the object the variable holds now (two-step history)
+//   route reseat[N] | sreseat[N] / mode rconv[N]: history: the (shared_ptr-held) argument is first passed N (default 1) times to a C++ function
+//         taking std::shared_ptr<T>& that re-seats it to a new object; the case is then about the object the variable holds now
+//         (sreseat: the call is then made from script text).  Output gains  | HIST <box descr before> <payload after step 1> ..
 //   recv = <static type id>:<value>@<S|D|-|N>[:h<const>]   S = the address C++ received is the argument's own object
 #include "hcommon.hpp"
 #include <map>
@@ -36,7 +37,7 @@ using FnII = std::function<int(int)>;
 using FnSI = std::function<std::string(int)>;
 
 enum { T_BV = 0, T_BN = 1, T_FUN = 2, T_INT = 10, T_UINT = 11, T_LONG = 12, T_DOUBLE = 13, T_BOOL = 14, T_CHAR = 15, T_STRING = 16, T_BASE = 17,
-       T_DERIVED = 18, T_OTHER = 19, T_SBASE = 20, T_SDERIVED = 21, T_VECBV = 22, T_VECINT = 23, T_FNII = 30, T_FNSI = 31, T_UNKNOWN = 99 };
+       T_DERIVED = 18, T_OTHER = 19, T_SBASE = 20, T_SDERIVED = 21, T_VECBV = 22, T_VECINT = 23, T_FNII = 30, T_FNSI = 31, T_VOID = 98, T_UNKNOWN = 99 };
 
 static std::map<std::string, int> &type_ids() {
   static std::map<std::string, int> m;
@@ -44,7 +45,7 @@ static std::map<std::string, int> &type_ids() {
 #define TID(T, id) m[user_type<T>().bare_name()] = id;
     TID(Boxed_Value, T_BV) TID(Boxed_Number, T_BN) TID(dispatch::Proxy_Function_Base, T_FUN) TID(int, T_INT) TID(unsigned, T_UINT) TID(long, T_LONG)
     TID(double, T_DOUBLE) TID(bool, T_BOOL) TID(char, T_CHAR) TID(std::string, T_STRING) TID(Base, T_BASE) TID(Derived, T_DERIVED) TID(Other, T_OTHER)
-    TID(SBase, T_SBASE) TID(SDerived, T_SDERIVED) TID(VecBV, T_VECBV) TID(VecInt, T_VECINT) TID(FnII, T_FNII) TID(FnSI, T_FNSI)
+    TID(SBase, T_SBASE) TID(SDerived, T_SDERIVED) TID(VecBV, T_VECBV) TID(VecInt, T_VECINT) TID(FnII, T_FNII) TID(FnSI, T_FNSI) TID(void, T_VOID)
 #undef TID
   }
   return m;
@@ -210,6 +211,8 @@ template<typename P> int fnar() { return FnAr<std::remove_cv_t<std::remove_refer
     [] { return fun([](P0 a0, P1 a1, P2 a2) { enter(ID, {shw<P0>(a0, 0), shw<P1>(a1, 1), shw<P2>(a2, 2)}); }); }, "", {}, -1, false});
 #define F1R(ID, RET, P0, VALUE) catalogue().push_back(Entry{ID, "native", {FormOf<P0>::name()}, {fnar<P0>()}, \
     [] { return fun([](P0 a0) -> RET { enter(ID, {shw<P0>(a0, 0)}); return VALUE; }); }, "", {}, -1, false});
+#define F2R(ID, RET, P0, P1, VALUE) catalogue().push_back(Entry{ID, "native", {FormOf<P0>::name(), FormOf<P1>::name()}, {fnar<P0>(), fnar<P1>()}, \
+    [] { return fun([](P0 a0, P1 a1) -> RET { enter(ID, {shw<P0>(a0, 0), shw<P1>(a1, 1)}); return VALUE; }); }, "", {}, -1, false});
 #define DYN(ID, TEXT, NAMED, GUARD) catalogue().push_back(Entry{ID, "dyn", {}, {}, nullptr, TEXT, NAMED, GUARD, false});
 
 using CRI = const int &; using RI = int &; using PI = int *; using CPI = const int *; using SPI = std::shared_ptr<int>; using SPCI = std::shared_ptr<const int>;
@@ -218,6 +221,7 @@ using SPB = std::shared_ptr<Base>; using SPCB = std::shared_ptr<const Base>; usi
 using CRO = const Other &; using CRBV = const Boxed_Value &; using CRVI = const VecInt &; using RWI = std::reference_wrapper<int>; using RRI = int &&;
 using CRSB = const SBase &; using PSB = SBase *; using RDbl = double &; using CRL = const long &; using CPB = const Base *;
 
+static const std::string &keep_str() { static const std::string s("s1"); return s; }
 static void build_catalogue() {
   if (!catalogue().empty()) return;
   F1(1, int) F1(2, CRI) F1(3, RI) F1(4, PI) F1(5, CPI) F1(6, SPI) F1(7, SPCI) F1(8, CRSPI) F1(9, long) F1(10, double) F1(11, unsigned) F1(12, char) F1(13, bool)
@@ -249,6 +253,11 @@ static void build_catalogue() {
   F1R(90, int, RB, 1) F1R(91, std::string, CRB, std::string("s1")) F1R(92, std::string, RI, std::string("s1")) F1R(93, int, CRI, 1)
   F1R(94, int, RI, 1) F1R(95, std::string, CRI, std::string("s1")) F1R(96, Boxed_Value, RS, Boxed_Value(1)) F1R(97, int, CRS, 1)
   F1R(98, Boxed_Number, PI, Boxed_Number(1)) F1R(99, double, CPI, 1.5)
+  // ... on class types held through a base-class conversion, on pointers, and in either parameter position of two-parameter overloads
+  F1R(100, std::string, RD, std::string("s1")) F1R(101, int, CRD, 1) F1R(102, double, PB, 1.5) F1R(103, Boxed_Value, CPB, Boxed_Value(1))
+  F1R(104, const std::string &, SPB, keep_str()) F1R(105, int, SPCB, 1) F1R(106, bool, std::shared_ptr<Other>, true) F1R(107, long, CRO, 1L)
+  F2R(110, int, RB, int, 1) F2R(111, std::string, CRB, int, std::string("s1")) F2R(112, std::string, int, RS, std::string("s1")) F2R(113, int, int, CRS, 1)
+  F2R(114, Boxed_Value, RB, RB, Boxed_Value(1)) F2R(115, double, CRB, CRB, 1.5)
   F0(80)
   catalogue().push_back(Entry{81, "native", {}, {}, [] { return fun([]() { enter(81, {}); }); }, "", {}, -1, false});
 }
@@ -274,9 +283,11 @@ static void add_convs(ChaiScript_Basic &c, int convset) {
 }
 // re-seating callees: what the script variable holds afterwards is known to the harness independently of the Boxed_Value's cached pointers
 static const void *g_reseat_addr = nullptr;
+static const void *g_reseat_from = nullptr;   // the object the re-seated shared_ptr held before
 static std::string g_reseat_pay;
 template<typename T, typename Mk> static void add_reseat(ChaiScript_Basic &c, Mk mk) {
   c.add(fun([mk](std::shared_ptr<T> &p) {
+          g_reseat_from = p.get();
           p = std::make_shared<T>(mk(*p));
           g_reseat_addr = p.get();
           g_reseat_pay = pval(static_cast<const T &>(*p));
@@ -288,6 +299,7 @@ static void add_reseats(ChaiScript_Basic &c) {
   add_reseat<Base>(c, [](const Base &v) { return Base(v.tag + 50); });
   add_reseat<Derived>(c, [](const Derived &v) { return Derived(v.tag + 50); });
   add_reseat<Other>(c, [](const Other &v) { return Other(v.tag + 50); });
+  add_reseat<double>(c, [](const double &v) { return v + 1000; });
 }
 static Eng &engine(int convset) {
   static Eng e[2];
@@ -451,26 +463,44 @@ static std::string run_case(const std::string &line) {
   Keep keepalive;
   std::vector<Boxed_Value> args;
   std::vector<std::string> texts;
-  std::string out = "ARGS";
+  std::string out = "ARGS", hist;
+  int nreseat = 0;
+  bool script_route = head[0] == "D" && head[2] == "script";
+  for (const char *pre : {"sreseat", "reseat", "rconv"}) {
+    const std::string pf(pre);
+    if (head[2].compare(0, pf.size(), pf) == 0 && head[2].find_first_not_of("0123456789", pf.size()) == std::string::npos) {
+      nreseat = head[2].size() > pf.size() ? std::stoi(head[2].substr(pf.size())) : 1;
+      if (pf == "sreseat") script_route = true;
+      break;
+    }
+  }
+  if (nreseat > 8) return "BADCASE history too long";
   try {
     for (size_t j = 0; j < argspecs.size(); ++j) {
       std::string text;
       Boxed_Value b = mk_arg(argspecs[j], keepalive, text);
       if (!text.empty()) {
         // literals and script function values are produced by the parser/evaluator
-        if (head[0] == "C" || head[2] != "script") b = chai.eval(text);
+        if (head[0] == "C" || !script_route) b = chai.eval(text);
       }
       args.push_back(b);
       texts.push_back(text);
-      g_arg_unknown[j] = (!text.empty() && head[0] == "D" && head[2] == "script");
+      g_arg_unknown[j] = (!text.empty() && script_route);
       g_arg_addr[j] = b.get_const_ptr();
-      if (j == 0 && (head[2] == "reseat" || head[2] == "rconv")) {
-        // history step 1: a C++ function taking std::shared_ptr<T>& re-seats the variable
-        g_reseat_addr = nullptr;
+      if (j == 0 && nreseat > 0) {
+        // history: N times, a C++ function taking std::shared_ptr<T>& re-seats the variable
+        hist = " | HIST " + describe_arg(b);
         chai.set_locals({{"rs", b}});
-        chai.eval("__reseat(rs)");
+        for (int step = 0; step < nreseat; ++step) {
+          g_reseat_addr = nullptr;
+          chai.eval("__reseat(rs)");
+          if (!g_reseat_addr) { chai.set_locals({}); return "BADCASE reseat did not run"; }
+          // dispatch may have handed the callee an arithmetic conversion of a const variable: then the variable itself was not re-seated
+          if (g_reseat_from != g_arg_addr[j]) { chai.set_locals({}); return "BADCASE reseat was applied to a converted temporary, not to the variable"; }
+          g_arg_addr[j] = g_reseat_addr;
+          hist += " " + g_reseat_pay;
+        }
         chai.set_locals({});
-        if (!g_reseat_addr) return "BADCASE reseat did not run";
         g_arg_addr[j] = g_reseat_addr;
         out += " " + describe_arg(b, &g_reseat_pay);
         continue;
@@ -478,9 +508,10 @@ static std::string run_case(const std::string &line) {
       out += " " + (g_arg_unknown[j] ? std::string("text") : describe_arg(b));
     }
   } catch (const std::exception &e) { return std::string("BADCASE ") + e.what(); }
+  out += hist;
   g_log.clear();
   if (head[0] == "C") {
-    CastCtx ctx{&chai, head[2] == "rconv" ? std::string("conv") : head[2], texts.empty() ? "" : texts[0]};
+    CastCtx ctx{&chai, nreseat > 0 ? std::string("conv") : head[2], texts.empty() ? "" : texts[0]};
     auto it = cast_table().find(head[3]);
     if (it == cast_table().end() || args.size() != 1) return "BADCASE no such cast " + head[3];
     try { out += " | CAST " + it->second(ctx, args[0]); }
@@ -518,7 +549,7 @@ static std::string run_case(const std::string &line) {
   std::string res;
   Boxed_Value ret;
   try {
-    if (head[2] == "script") {
+    if (script_route) {
       std::map<std::string, Boxed_Value> locals;
       std::string call = name + "(";
       for (size_t j = 0; j < args.size(); ++j) {
@@ -554,7 +585,7 @@ static std::string run_case(const std::string &line) {
     if (bp == nullptr) g_log += " | ENTER 44 [" + std::to_string(T_BASE) + ":null@N]";   // o->*m_attr on a null object: the result must not be read
     else if (ret.get_const_ptr() == &bp->tag) g_log += " | ENTER 44 [" + std::to_string(T_BASE) + ":" + pval(*bp) + "@S]";
   }
-  if (head[2] == "script") chai.set_locals({});
+  if (script_route) chai.set_locals({});
   return out + g_log + " | RES " + res;
 }
 
@@ -574,7 +605,7 @@ static void dump_catalog() {
       tis = (inner.empty() ? pf : inner[0])->get_param_types();
     } else tis = e.make()->get_param_types();
     all.emplace_back(e.id, tis);
-    for (size_t i = 1; i < tis.size(); ++i) {
+    for (size_t i = 0; i < tis.size(); ++i) {
       bool found = false;
       for (auto &d : distinct) if (!(d < tis[i]) && !(tis[i] < d)) found = true;
       if (!found) distinct.push_back(tis[i]);
@@ -587,7 +618,9 @@ static void dump_catalog() {
     auto &tis = all[n].second;
     Proxy_Function pf = e.kind == "dyn" ? Proxy_Function() : e.make();
     int arity = e.kind == "dyn" ? static_cast<int>(tis.size()) - 1 : pf->get_arity();
-    std::cout << "FUNC " << e.id << " " << e.kind << " " << arity << " " << (e.throws ? 1 : 0) << " " << e.guard << " " << (tis.size() - 1);
+    // slot 0 of get_param_types() is the return type: bare:const:undef:rank
+    std::cout << "FUNC " << e.id << " " << e.kind << " " << arity << " " << (e.throws ? 1 : 0) << " " << e.guard << " "
+              << tid_of(tis[0]) << ":" << tis[0].is_const() << ":" << tis[0].is_undef() << ":" << rank(tis[0]) << " " << (tis.size() - 1);
     for (size_t i = 1; i < tis.size(); ++i) {
       const auto &t = tis[i];
       bool fullbare = std::string(t.name()) == t.bare_name();
